@@ -41,6 +41,7 @@ def dispatch (line : String) : String :=
     | "cookie" => cmdCookie m
     | "ntlm" => cmdNtlm m
     | "route" => cmdRoute m
+    | "startup" => cmdStartup m
     | "download" => cmdDownload m
     | "oidc-callback" => cmdOidcCallback m
     | "kdc-decode" => cmdKdcDecode m
